@@ -80,6 +80,8 @@ def check(run):
             info.append(f"{names[j]}:{hex(off)}:{hex(ln)}")
             ins.append(f"{names[j]}=" + ",".join(hex(rng.choice([0, 1, P - 1, rand_fr(rng)])) for _ in range(ln)))
         rng.shuffle(ins)                   # the supplied order is arbitrary
+        if len(ins) >= 2 and rng.random() < 0.25:
+            ins.pop(rng.randrange(len(ins)))       # a declared input that is not supplied stays zero; the others must still arrive
         line = f"{';'.join(nodes)} {','.join(hex(o) for o in outs)} {','.join(info) or '-'} {';'.join(ins) or '-'}"
         seqs.append(["graph calc " + line])
         if not late:
@@ -116,7 +118,7 @@ def check(run):
         seqs.append([f"graph eval {';'.join(nodes)} {','.join(hex(v) for v in [1] + vals[1:])} {hex(total - 1)},{hex(total - 2)}"])
         if m >= 1:
             seqs.append([f"graph calc {';'.join(nodes)} {hex(total - 1)},{hex(total - 2)} v:0x1:{hex(m)} v={','.join(hex(v) for v in vals[1:])}"])
-    run.rules.append("input blocks with gaps / other orders / repeated indices; every operator inside tiny graphs on boundary operand pairs and every limb-boundary shift count of large operands; random DAGs over every supported node kind (inputs, Montgomery constants incl. 0/1/253/254/p-1, all duo operators but Pow, Neg, ternary), 1..60 (thorough: 400) nodes, random declared input layouts (contiguous or with gaps, 0..4 named vectors, shuffled supply order), boundary/random input values, random output lists; evaluated by graph::evaluate, by calc_witness through serialize/deserialize_witnesscalc_graph, by the model's single pass and by the recursive reference interpretation; every seventh graph is re-evaluated after a twin of equal encoded length from the same (reused) buffer; chains of up to 2^20+3 (thorough 2^21+5) nodes through the container and calc_witness against the closed form; containers written by the implementation are re-read and re-framed by the model; distinct = distinct op line")
+    run.rules.append("input blocks with gaps / other orders / repeated indices; every operator inside tiny graphs on boundary operand pairs and every limb-boundary shift count of large operands; random DAGs over every supported node kind (inputs, Montgomery constants incl. 0/1/253/254/p-1, all duo operators but Pow, Neg, ternary), 1..60 (thorough: 400) nodes, random declared input layouts (contiguous or with gaps, 0..4 named vectors, shuffled supply order, sometimes one declared vector not supplied), boundary/random input values, random output lists; evaluated by graph::evaluate, by calc_witness through serialize/deserialize_witnesscalc_graph, by the model's single pass and by the recursive reference interpretation; every seventh graph is re-evaluated after a twin of equal encoded length from the same (reused) buffer; chains of up to 2^20+3 (thorough 2^21+5) nodes through the container and calc_witness against the closed form; containers written by the implementation are re-read and re-framed by the model; distinct = distinct op line")
     run.differential("graph-eval", seqs, classify=classify, shrink=False)
     run.differential("graph-store", stores, canon=lambda l, x: x.split(" bytes=")[0], shrink=False)
     # containers produced by the implementation, read by the model's framing code and written back
